@@ -384,7 +384,18 @@ parser = opparse.Parser(
 )
 
 
-def _guarantee_call(parent, context, resolve=True):
+def _expect(node, value, types, what):
+    """Check the kind of an operand.
+
+    Raise a SyntaxError located at node if value is not an instance of
+    types, otherwise return value.
+    """
+    if not isinstance(value, types):
+        raise node.location.syntax_error(f"Invalid syntax: expected {what}")
+    return value
+
+
+def _guarantee_call(node, parent, context, resolve=True):
     """Always returns a Call instance.
 
     If given an Element, return a Call with that Element as the function
@@ -394,8 +405,7 @@ def _guarantee_call(parent, context, resolve=True):
         name = VSymbol(parent.name) if parent.name and resolve else parent.name
         parent = parent.clone(capture=None, name=name).without_focus()
         parent = Call(element=parent, captures=(), immediate=False)
-    assert isinstance(parent, Call)
-    return parent
+    return _expect(node, parent, Call, "a function")
 
 
 class Evaluator:
@@ -413,7 +423,10 @@ class Evaluator:
         return deco
 
     def __call__(self, ast, context="root"):
-        assert ast is not None
+        if ast is None:
+            raise opparse.Location("", "<string>", 0, 0).syntax_error(
+                "Empty expression"
+            )
         if isinstance(ast, opparse.Token):
             key = "SYMBOL"
         else:
@@ -439,7 +452,8 @@ def make_group(node, _1, element, _2, context):
 def make_nested_imm(node, parent, child, context):
     parent = evaluate(parent, context=context)
     child = evaluate(child, context=context)
-    parent = _guarantee_call(parent, context=context)
+    parent = _guarantee_call(node, parent, context=context)
+    child = _expect(node, child, (Element, Call), "a variable or a call")
     if isinstance(child, Element):
         child = child.with_focus()
         return parent.clone(captures=parent.captures + (child,))
@@ -472,6 +486,7 @@ def make_class(node, element, tag, context):
     element = (
         evaluate(element, context=context) if element else Element(name=None)
     )
+    element = _expect(node, element, Element, "a variable before ':'")
     tag = value_evaluate(tag)
     return element.clone(category=tag)
 
@@ -479,20 +494,21 @@ def make_class(node, element, tag, context):
 @evaluate.register_action("_ ! X")
 def make_focus(node, _, element, context):
     element = evaluate(element, context=context)
-    assert isinstance(element, Element)
+    element = _expect(node, element, Element, "a variable after '!'")
     return element.with_focus()
 
 
 @evaluate.register_action("_ !! X")
 def make_double_focus(node, _, element, context):
     element = evaluate(element, context=context)
-    assert isinstance(element, Element)
+    element = _expect(node, element, Element, "a variable after '!!'")
     return element.clone(tags=frozenset({2}))
 
 
 @evaluate.register_action("_ $ X")
 def make_dollar(node, _, name, context):
     name = evaluate(name, context=context)
+    name = _expect(node, name, Element, "a name after '$'")
     return Element(name=None, category=None, capture=name.name, tags=name.tags)
 
 
@@ -502,7 +518,7 @@ def make_call_capture(node, fn, names, _, context):
     fn = evaluate(fn, context=context)
     names = evaluate(names, context="incall") if names else []
     names = names if isinstance(names, list) else [names]
-    fn = _guarantee_call(fn, context=context)
+    fn = _guarantee_call(node, fn, context=context)
     caps = tuple(name for name in names if isinstance(name, Element))
     children = tuple(name for name in names if isinstance(name, Call))
     return fn.clone(
@@ -522,7 +538,9 @@ def make_sequence(node, a, b, context):
 @evaluate.register_action("X as X")
 def make_as(node, element, name, context):
     element = evaluate(element, context=context)
+    element = _expect(node, element, (Element, Call), "a variable or a call")
     name = evaluate(name, context=context)
+    name = _expect(node, name, Element, "a name after 'as'")
     if isinstance(element, Element):
         return element.clone(capture=name.name, tags=element.tags | name.tags)
     else:
@@ -538,6 +556,7 @@ def make_as(node, element, name, context):
 @evaluate.register_action("X = X")
 def make_equals(node, element, value, context, matchfn=False):
     element = evaluate(element, context=context)
+    element = _expect(node, element, (Element, Call), "a variable or a call")
     value = value_evaluate(value)
     if matchfn:
         value = VCall(MatchFunction, (value,))
@@ -584,7 +603,7 @@ def dict_resolver(env):
 
             try:
                 co = codefind.find_code(*hierarchy, module=module or "__main__")
-            except KeyError:
+            except (KeyError, ImportError):
                 raise CodeNotFoundError(
                     f"Cannot find a function for the reference '{x}'."
                     " Try calling `ptera.refstring` on the function you want"
@@ -598,9 +617,9 @@ def dict_resolver(env):
                 and not getattr(fn, "__ptera_discard__", False)
             ]
             if not funcs:  # pragma: no cover
-                raise Exception(f"Reference `{x}` cannot be resolved.")
+                raise CodeNotFoundError(f"Reference `{x}` cannot be resolved.")
             elif len(funcs) > 1:  # pragma: no cover
-                raise Exception(f"Reference `{x}` is ambiguous.")
+                raise CodeNotFoundError(f"Reference `{x}` is ambiguous.")
             (curr,) = funcs
 
         elif x.startswith("@"):
@@ -614,7 +633,10 @@ def dict_resolver(env):
                 raise SelectorError(f"Could not resolve '{start}'.")
 
             for part in parts:
-                curr = getattr(curr, part)
+                try:
+                    curr = getattr(curr, part)
+                except AttributeError:
+                    raise SelectorError(f"Could not resolve '{x}'.")
 
         return getattr(curr, "__ptera__", curr)
 
@@ -728,7 +750,7 @@ def vmake_call(node, fn, args, _, context):
 @value_evaluate.register_action("X = X")
 def vmake_keyword(node, key, value, context):
     key = value_evaluate(key)
-    assert isinstance(key, VSymbol)
+    key = _expect(node, key, VSymbol, "a keyword name before '='")
     value = value_evaluate(value)
     return VKeyword(key, value)
 
@@ -821,7 +843,10 @@ def _select(selector, context="root"):
             captures=(selector.with_focus(),),
             immediate=False,
         )
-    assert isinstance(selector, Call)
+    if not isinstance(selector, Call):
+        raise SelectorError(
+            f"A selector must describe a single call path, not {selector}"
+        )
     return selector
 
 
